@@ -38,13 +38,14 @@ prop("C15",
      quick=[{"re": "^TestC15(Exhaustive)?$", "checks": 20000},
             {"re": "^TestC15Range$", "checks": 150}],
      thorough=[{"re": "^TestC15(Exhaustive)?$", "checks": 3000000, "shards": 6, "timeout": 1500},
-               {"re": "^TestC15Range$", "checks": 4000, "shards": 4, "timeout": 1500},
+               {"re": "^TestC15Range$", "checks": 40000, "shards": 4, "timeout": 1500},
                {"re": "^TestC15AllSingleSlots$", "checks": 1, "shards": 8, "timeout": 1500}],
      rule="(1) exhaustive: every string over {'{','}','a','b'} of length 0..8 (87381 keys); (2) rapid-generated keys from a brace grammar "
           "(empty tags, unbalanced, nested, repeated, arbitrary bytes incl. invalid UTF-8); (3) slot ranges [l,r]: single slots, shard "
           "edges, random (thorough: all 16384 single-slot ranges). Oracles: utils.KeyToSlot == reference implementation of the Redis "
           "Cluster rule over a bit-by-bit CRC16/XMODEM; both private crc16 copies and go-cluster GetSlot (brace-free keys) == reference "
-          "CRC16; ChoseSlotInRange key non-empty, reference slot in [l,r], excluded by filter.FilterKey; findKeyInRange key in range. "
+          "CRC16; ChoseSlotInRange key non-empty, reference slot in [l,r], excluded by filter.FilterKey under a generated key filter configuration (none, "
+          "or a white/black list of 1-3 prefixes, some of which cover the checkpoint key and some of which do not mention it); findKeyInRange key in range. "
           "Non-trivial: key with >= 2 braces; range narrower than 4 slots. Distinct = hash of key / of (l,r).",
      technique="property-based testing (rapid) + exhaustive small-alphabet enumeration against a reference implementation of the Redis Cluster hash-slot rule (differential oracle)",
      level_text="Exhaustive over all brace layouts up to length 8 plus generated search; differential against an independent reference (bitwise CRC16, literal spec rule) self-checked on published check values. The function is pure, so this is the strongest testing-level evidence available; no absence claim beyond the enumerated space.",
@@ -84,7 +85,7 @@ prop("C01",
 prop("C11",
      title="Checksums are the Redis CRC-64 of the covered bytes; corruption is detected",
      quick=[{"re": "^TestC11$", "checks": 500}],
-     thorough=[{"re": "^TestC11$", "checks": 40000, "shards": 10, "timeout": 1700}],
+     thorough=[{"re": "^TestC11$", "checks": 120000, "shards": 12, "timeout": 1700}],
      rule="(digest) byte strings 0-64000 bytes with 1-8 generated write boundaries through pkg/rdb/digest, the in-repo cupcake crc64 "
           "and the module copy linked by verifyDump/CheckVersionChecksum: Sum64/Sum/Reset/Digest == reference CRC-64 (Jones, reflected, "
           "init 0; derived bit-by-bit, check value e9c6d914c4b8d9ca). (rdb) small RDB files written locally so that every pure data "
@@ -154,7 +155,8 @@ prop("C18",
           "DataRange, Close; memory backlogs of 1,2,3,5 alignment units and file backlogs of 1 or 3 x 4 MiB; model = total written + capacity + "
           "position-dependent byte pattern; only non-blocking calls are issued. After every call: invalid-offset error iff o > wpos or o+cap < wpos, "
           "else 1<=n<=min(k,wpos-o) bytes equal to what was written at o; DataRange == (max(0,wpos-cap), wpos); validity <=> rpos<=seek<=wpos; "
-          "reads/writes after Close fail. (waiters) 1-5 readers (ReadAt or Reader.Read) block at the write position, then a write (<= cap) or Close: "
+          "reads/writes after Close fail. (waiters) 1-5 readers (ReadAt or Reader.Read) block at the write position, then a write (<= cap) or Close "
+          "(file backend, one case in six: optionally after the owner has already closed the backing file, so that the truncation inside Close fails): "
           "all must return within 8 s with the data / with an error (goroutine stacks decide between defect and harness trouble). Non-trivial: "
           "sequential run with >= 2x capacity written and both valid and invalid-offset reads; waiter case with >= 2 readers. Distinct = hash of history.",
      technique="stateful property-based testing (rapid state machine vs an absolute-offset reference model) + generated multi-reader wake-up scenarios",
@@ -186,8 +188,8 @@ prop("C02",
      quick=[{"re": "^TestC02$", "checks": 5000},
             {"re": "^TestC02Chunked$", "checks": 6},
             {"re": "^TestC02Lua$", "checks": 200}],
-     thorough=[{"re": "^TestC02$", "checks": 400000, "shards": 10, "timeout": 1700},
-               {"re": "^TestC02Chunked$", "checks": 200, "shards": 5, "timeout": 1700},
+     thorough=[{"re": "^TestC02$", "checks": 1200000, "shards": 12, "timeout": 1700},
+               {"re": "^TestC02Chunked$", "checks": 400, "shards": 5, "timeout": 1700},
                {"re": "^TestC02Lua$", "checks": 20000, "timeout": 1700}],
      rule="entry x configuration x target state. Entry: every type/encoding of the RDB generator (incl. stream, quicklist, zipmap, ziplist, intset, "
           "LZF), collection sizes at 1,2,3,63-65,99-101,199-201,300, expiry none/past/future against the shifted clock, idle/freq hints, keys with "
@@ -212,8 +214,8 @@ prop("C14",
      timing=True,
      quick=[{"re": "^TestC14$", "checks": 2500},
             {"re": "^TestC14EndToEnd$", "checks": 2, "shards": 2, "timeout": 600}],
-     thorough=[{"re": "^TestC14$", "checks": 300000, "shards": 10, "timeout": 1700},
-               {"re": "^TestC14EndToEnd$", "checks": 36, "shards": 6, "timeout": 1700}],
+     thorough=[{"re": "^TestC14$", "checks": 900000, "shards": 10, "timeout": 1700},
+               {"re": "^TestC14EndToEnd$", "checks": 72, "shards": 6, "timeout": 1700}],
      rule="histories of 0-10 checkpoint writes into a model target (loopback TCP): sources drawn from a set with prefix-related addresses "
           "(h:637 / h:6379 / h:63790, 10.0.0.1:6379 / 10.0.0.1:63791 / 10.0.0.11:6379), dbs 0-15, strictly increasing offsets per source (some "
           "> 2^33), run id + version with the first write into a db (as the sender does) or rewritten later, version in {1,0,2,absent}, partially "
@@ -235,8 +237,8 @@ prop("C20",
      timing=True,
      quick=[{"re": "^TestC20$", "checks": 1, "timeout": 300},
             {"re": "^TestC20Syncer$", "checks": 400}],
-     thorough=[{"re": "^TestC20$", "checks": 48, "shards": 12, "timeout": 1700},
-               {"re": "^TestC20Syncer$", "checks": 40000, "shards": 4, "timeout": 1700}],
+     thorough=[{"re": "^TestC20$", "checks": 96, "shards": 12, "timeout": 1700},
+               {"re": "^TestC20Syncer$", "checks": 120000, "shards": 4, "timeout": 1700}],
      rule="one rapid case = a batch of 80-120 shard scripts run concurrently (the retry back-off sleeps 6+5+..+1 s, so a case costs ~21 s of wall "
           "time whatever its size): 1-6 nodes in any order (the configured source need not be the master), and for each node and each of the 7 "
           "attempts one of {master, slave, connect error, command error, INFO without role line, INFO with look-alike lines before the role line}; "
@@ -300,7 +302,7 @@ prop("C07",
      regress_re="^TestC07(Chunked)?Regress$",
      quick=[{"re": "^TestC07$", "checks": 1200, "shards": 4},
             {"re": "^TestC07Chunked$", "checks": 5}],
-     thorough=[{"re": "^TestC07$", "checks": 120000, "shards": 12, "timeout": 1700},
+     thorough=[{"re": "^TestC07$", "checks": 360000, "shards": 12, "timeout": 1700},
                {"re": "^TestC07Chunked$", "checks": 300, "shards": 6, "timeout": 1700}],
      rule="generated RDB (0-6 dbs in any order from 0..15, 0-6 keys each, every classic encoding, lua scripts, aux/resizedb/module-aux) x parallel 1..8 x "
           "target.db in {-1,0,3} x db/key/slot(sync only)/lua filters x key_exists x pre-existing target keys x RESTORE or element route x an injected "
@@ -319,7 +321,8 @@ prop("C07",
                   "a key never carries both IDLE and FREQ hints (Redis saves one or the other)"])
 
 INCR_RULE = ("source command streams of up to 25 commands drawn from a grammar: SELECT (dbs 0,1,2,5,11, repeated), SET/MSET/APPEND/INCR/RPUSH/HSET/DEL/UNLINK/"
-             "SUNIONSTORE/BITOP, opaque commands (XADD, PFADD, ZUNIONSTORE, ...), PING, MULTI..EXEC blocks (also empty), PUBLISH __sentinel__:hello, EVAL/"
+             "SUNIONSTORE/BITOP, opaque commands (XADD, PFADD, ZUNIONSTORE, ...), PING, MULTI..EXEC blocks (also empty, also with SELECT inside, and composed blocks: a transaction that "
+             "hops into another - possibly filtered - database and ends there, optionally followed by a SELECT and a second transaction), PUBLISH __sentinel__:hello, EVAL/"
              "EVALSHA/SCRIPT, OPINFO, command names in any letter case, binary arguments, keep-alive newlines between commands; keys that are prefixes "
              "of / equal to / extend the filter prefixes or carry the checkpoint prefix; value types kept consistent per key name (a master only "
              "propagates commands that succeeded); delivered to the real DbSyncer.syncCommand through a pipe in generated fragments with pauses of "
@@ -332,7 +335,7 @@ prop("C03",
      title="Incremental sync forwards the filtered command stream in order, exactly once",
      timing=True,
      quick=[{"re": "^TestC03$", "checks": 15, "shards": 3, "timeout": 600}],
-     thorough=[{"re": "^TestC03$", "checks": 1400, "shards": 14, "timeout": 1700}],
+     thorough=[{"re": "^TestC03$", "checks": 2800, "shards": 14, "timeout": 1700}],
      rule=INCR_RULE + "Oracle: reference model written from the statement (source-selected db tracking, db filter, OPINFO/lua/sentinel-hello/MULTI/EXEC never "
           "applied, reference key-filter rewrite from C13, destination db = source db or target.db) => expected sequence of (db, command, args); observed = "
           "the model target's command log in execution order with the db each command ran in (tool-own SELECT/MULTI/EXEC/checkpoint HSET and PING left out); "
@@ -351,7 +354,7 @@ prop("C04",
      title="Checkpoints are atomic with the data, so resume loses and repeats nothing",
      timing=True,
      quick=[{"re": "^TestC04$", "checks": 12, "shards": 4, "timeout": 600}],
-     thorough=[{"re": "^TestC04$", "checks": 1200, "shards": 12, "timeout": 1700}],
+     thorough=[{"re": "^TestC04$", "checks": 2400, "shards": 12, "timeout": 1700}],
      rule=INCR_RULE + "Here resume is always on (target.db -1), start offsets 0 / 1000 / 2^33, user keys never carry the checkpoint prefix. For each stream: (a) the "
           "uninterrupted run must satisfy the C03 oracle; the exact byte stream the target received on the sender's connection is parsed into commands and "
           "EVERY prefix (cut between any two commands, inside or outside MULTI) is replayed into a fresh model with MULTI/EXEC semantics (a cut connection "
@@ -375,7 +378,7 @@ prop("C16",
      quick=[{"re": "^TestC16$", "checks": 6, "shards": 3, "timeout": 600},
             {"re": "^TestC16KeyFile$", "checks": 4, "timeout": 600},
             {"re": "^TestC16QoS$", "checks": 1, "timeout": 600}],
-     thorough=[{"re": "^TestC16$", "checks": 600, "shards": 12, "timeout": 1700},
+     thorough=[{"re": "^TestC16$", "checks": 1200, "shards": 12, "timeout": 1700},
                {"re": "^TestC16KeyFile$", "checks": 300, "shards": 3, "timeout": 1700},
                {"re": "^TestC16QoS$", "checks": 60, "shards": 6, "timeout": 1700}],
      rule="one rapid case = one configuration and a batch of 8-20 executors run concurrently (QoS bucket and status ticker cost ~2 s per executor): model "
@@ -399,8 +402,8 @@ prop("C08",
      timing=True,
      quick=[{"re": "^TestC08$", "checks": 2, "shards": 2, "timeout": 600},
             {"re": "^TestC08EndToEnd$", "checks": 2, "shards": 2, "timeout": 600}],
-     thorough=[{"re": "^TestC08$", "checks": 72, "shards": 12, "timeout": 1700},
-               {"re": "^TestC08EndToEnd$", "checks": 60, "shards": 10, "timeout": 1700}],
+     thorough=[{"re": "^TestC08$", "checks": 144, "shards": 12, "timeout": 1700},
+               {"re": "^TestC08EndToEnd$", "checks": 120, "shards": 10, "timeout": 1700}],
      rule="(histories) one rapid case = a batch of 8-16 fake-source histories run concurrently against the real sendPSyncCmd/runIncrementalSync/pSyncPipeCopy: "
           "start offset in {0,57,2^33}, FULLRESYNC (small RDB) or CONTINUE, WaitFull closed 0-2.3 s after the handshake, a timeline of bursts (1-300 bytes) and "
           "idle gaps (0/0.2/0.6/1.1/2.5 s) spanning >= 3 ACK ticks, optionally one drop of the link (after everything sent was flushed) followed by 0-1 s of "
@@ -423,16 +426,21 @@ prop("C19",
      title="Configured passwords never appear in logs or status output",
      observation_is_proof=True,
      quick=[{"re": "^TestC19$", "checks": 3000},
-            {"re": "^TestC19Paths$", "checks": 45, "shards": 3, "timeout": 600}],
+            {"re": "^TestC19Paths$", "checks": 24, "shards": 3, "timeout": 600},
+            {"re": "^TestC19EachPath$", "checks": 12, "shards": 4, "timeout": 600}],
      thorough=[{"re": "^TestC19$", "checks": 300000, "shards": 4, "timeout": 1700},
-               {"re": "^TestC19Paths$", "checks": 3000, "shards": 12, "timeout": 1700}],
+               {"re": "^TestC19Paths$", "checks": 2400, "shards": 12, "timeout": 1700},
+               {"re": "^TestC19EachPath$", "checks": 240, "shards": 4, "timeout": 1700}],
      rule="(safe options) generated password strings (some empty) in the four password fields: JSON, %v and %+v renderings of conf.GetSafeOptions() contain none "
           "of them and the raw fields are masked. (paths) two distinct high-entropy sentinels are configured as source/target password everywhere (options, "
           "SyncNode, connection helpers); a rapid case draws a run path and a log level {none,error,warn,info,debug} and runs that path's driver from the other "
           "properties on generated inputs: single-entry restore (5 cases), parallel full sync / restore mode, incremental sync, resume with cut enumeration and "
           "restarts (checkpoint load included), checkpoint loading on generated histories, rump, source re-discovery with failing nodes, syncer fail-over "
           "sequences, PSYNC handshake/reconnect and dump, a complete DbSyncer.Sync() run (AUTH, checkpoint load, full sync, incremental, link drop and "
-          "reconnect), and the status documents (DbSyncer.GetExtraInfo, metric.NewMetricRest over it, configuration echo). Everything written to the tool's "
+          "reconnect; fresh, resumed with +CONTINUE, resumed into a FULLRESYNC; the syncer's status document is scanned again after the run, i.e. after restarts), "
+          "connections with an auth type the server does not know (the model servers answer as Redis >= 5 does, echoing the arguments of the unknown command), "
+          "and the status documents (DbSyncer.GetExtraInfo, metric.NewMetricRest over it, configuration echo). TestC19EachPath gives every path its own share "
+          "of cases; a path that fails or aborts is still scanned. Everything written to the tool's "
           "logger during the case and every status document is scanned for both sentinels. Every other property's check also scans its whole log (counter "
           "password_leaks_seen in its evidence). Non-trivial: a path run that produced >= 200 bytes of output. Distinct = hash of (path, level, bytes, time).",
      technique="property-based testing (rapid): generated run paths x log levels x inputs with a sentinel-scan oracle over everything the tool prints or serves",
@@ -449,10 +457,10 @@ prop("C06",
                {"re": "^TestC06Paths$", "checks": 1500, "shards": 12, "timeout": 1700}],
      rule="(predicates) filter configurations (db white|black list of numbers incl. 1/10/11, key white|black list of 1-3 prefixes from a small alphabet so that keys "
           "are prefixes of / equal to / extend them, slot lists in any order, filter.lua) x keys (arbitrary bytes, hash-tag shaped, equal to / extending / one byte "
-          "short of the checkpoint prefix) x db numbers up to 200 x command names in any letter case: filter.FilterKey/FilterDB/FilterSlot/FilterCommands == "
-          "reference predicates written from the statement. (paths) a keyspace of 2-10 (db,key) pairs with 0-2 Lua scripts and a filter configuration is pushed "
+          "short of the checkpoint prefix, empty first brace pair followed by a later tag) x db numbers up to 200 x command names in any letter case: filter.FilterKey/FilterDB/FilterSlot/FilterCommands == "
+          "reference predicates written from the statement, and FilterSlot(KeyToSlot(key)) (the composition the full-sync path evaluates) == the reference decision for the key's specification slot. (paths) a keyspace of 2-10 (db,key) pairs with 0-2 Lua scripts and a filter configuration is pushed "
           "through the four real data paths against model targets: full sync (syncRDBFile on an RDB holding those keys), restore mode (restoreRDBFile), "
-          "incremental sync (SELECT/SET stream plus OPINFO/EVAL/SCRIPT through syncCommand) and rump (executor over a model source); the set of (db,key) that "
+          "incremental sync (per key SELECT + one of SET / INCR (key is the only argument) / RPUSH / APPEND, plus OPINFO/EVAL/SCRIPT, through syncCommand) and rump (executor over a model source); the set of (db,key) that "
           "arrived must equal {x | pass(path,x)}: db lists exact, blacklist excludes any listed prefix, whitelist passes only listed prefixes, slot list only "
           "in full sync, checkpoint-prefixed keys excluded in full sync/restore always and elsewhere once a key filter is configured, scripts/script commands "
           "excluded exactly when filter.lua is set, OPINFO never forwarded. Non-trivial: both outcomes present, a key extending a listed prefix, >=2 dbs. "
